@@ -275,6 +275,11 @@ func (x *Exec) modularCall(st *State, fr *Frame, site ssa.Instruction, fc *FuncC
 			env.vars[n] = args[i]
 		}
 	}
+	for old, idx := range x.E.paramAliases(fn) {
+		if _, taken := env.vars[old]; !taken && idx < len(args) {
+			env.vars[old] = args[idx]
+		}
+	}
 	if fp := fc.Flags["funcparam"]; fp != "" {
 		for _, n := range strings.Fields(fp) {
 			for i, pn := range pnames {
